@@ -20,9 +20,18 @@ Loose(v) == CASE Format = "cbor" -> C!HasSimple(v) [] Format = "msgpack" -> M!Ma
 
 AllToks == CASE Format = "cbor" -> CborTokens [] Format = "msgpack" -> MsgpackTokens [] Format = "ubjson" -> UbjsonTokens [] Format = "bson" -> BsonTokens
 SmallToks == CASE Format = "cbor" -> CborSmallTokens [] Format = "msgpack" -> MsgpackSmallTokens [] Format = "ubjson" -> UbjsonSmallTokens [] Format = "bson" -> BsonSmallTokens
+\* TokMode "tagsib" (CBOR): [ tag(item), sibling ] - a tag applies to exactly one data item (RFC 8949 3.4): whatever the tagged item is
+\* (simple values, floats of every width, integers, strings, empty containers) the item after it must get its own untagged image
+TagHeads == { <<192>>, <<193>>, <<194>>, <<195>>, <<196>>, <<197>>, <<198>>, <<213>>, <<214>>, <<215>>, <<216, 32>>, <<216, 33>>, <<216, 64>>, <<216, 25>>, <<217, 1, 0>>, <<216, 100>> }
+TagContents == { <<244>>, <<245>>, <<246>>, <<247>>, <<249, 60, 0>>, <<250, 63, 128, 0, 0>>, <<251, 63, 240, 0, 0, 0, 0, 0, 0>>, <<1>>, <<32>>, <<65, 0>>, <<97, 97>>, <<128>>, <<160>>, <<130, 1, 2>> }
+TagSiblings == { <<66, 1, 0>>, <<130, 1, 2>>, <<10>>, <<97, 97>>, <<249, 60, 0>>, <<246>>, <<33>>, <<161, 97, 97, 1>> }
+TagSibInputs == { <<130>> \o t \o x \o y : t \in TagHeads, x \in TagContents, y \in TagSiblings }
+                \cup { <<159>> \o t \o x \o y \o <<255>> : t \in TagHeads, x \in TagContents, y \in TagSiblings }
+                \cup { <<161, 97, 97>> \o t \o x : t \in TagHeads, x \in TagContents } \cup { <<162, 97, 97>> \o t \o x \o <<97, 98>> \o y : t \in TagHeads, x \in TagContents, y \in TagSiblings }
 Init == bs = <<>> /\ n = 0
 Next == /\ n < MaxLen /\ n' = n + 1
-        /\ IF TokMode = "rep" THEN (n = 0 /\ bs' \in (CASE Format = "cbor" -> CborRepInputs [] Format = "msgpack" -> MsgpackRepInputs
+        /\ IF TokMode = "tagsib" THEN (n = 0 /\ bs' \in TagSibInputs)
+           ELSE IF TokMode = "rep" THEN (n = 0 /\ bs' \in (CASE Format = "cbor" -> CborRepInputs [] Format = "msgpack" -> MsgpackRepInputs
                                                        [] Format = "ubjson" -> UbjsonRepInputs [] Format = "bson" -> BsonRepInputs))
            ELSE IF TokMode = "tok" THEN \E t \in (IF n < ExhLen THEN AllToks ELSE SmallToks) : bs' = bs \o t
            ELSE \E x \in (IF n < ExhLen THEN 0..255 ELSE Reps) : bs' = Append(bs, x)
@@ -39,7 +48,7 @@ Tagged(v) == CASE v[1] = "tag" -> TRUE
 Case == [f |-> Format, b |-> bs, ok |-> Ok,
          vd |-> (~Ok \/ (~Tagged(R[2]) /\ ~Loose(R[2]))),
          pv |-> (Ok /\ Plain(R[2])),
-         v |-> IF Ok THEN R[2] ELSE <<"none">>,
+         v |-> IF Ok THEN (IF Format = "cbor" THEN C!Image(R[2]) ELSE R[2]) ELSE <<"none">>,
          used |-> IF Ok THEN R[3] - 1 ELSE 0]
 Emit == (bs # <<>> /\ (Ok \/ ~OnlyAccepted)) => PrintT(ToJson(Case))
 =============================================================================
